@@ -1,5 +1,6 @@
 import Proofs.Lemmas.Solver
 import FsicModel.Generated
+import Proofs.Lemmas.SolverTable
 /-
 C06 — Numerical-error and failure policies follow the documented state machine.
 
@@ -306,6 +307,46 @@ theorem no_catch_stores {σ F : Type} (pre : List (Stmt σ F)) (st : Stmt σ F) 
   rw [runStmts_append]
   simp [hno, runStmts]
 
+/-! ### The statement-level clause, tied to the solver's options -/
+
+/-- Warnings are errors exactly under `errors='raise'` with `catch_first_error` (the `warnings.simplefilter('error')`
+    branch of `solve_t`). -/
+def strictOf (o : Opts) : Bool := decide (o.errors = .raise) && o.catchFirst
+
+/-- **The statement that warned does not store; the call raises with 'E' at that pass.**  For any model whose
+    evaluation pass runs a list of statements (`heval`), under `errors='raise'` and `catch_first_error`: if pass `s` is
+    reached and its statement `st` — after the statements `pre` of that pass, which did not warn — emits a warning, then
+    `solve_t` raises a chained SolutionError, records 'E' and `s`, and leaves the values as they were after `pre`:
+    `st`'s result is not stored and the statements after it do not run. -/
+theorem warning_statement_not_stored {σ V F : Type} (I : Interp σ V) (o : Opts) (n : Nat) (t : Int) (w : World σ)
+    (stmts : Int → Nat → List (Stmt σ F))
+    (heval : ∀ o' u t' k, I.eval o' u t' k = runStmts (strictOf o') (stmts t' k) u)
+    (he : o.errors = .raise) (hc : o.catchFirst = true)
+    (hacc : Accepted I o n t)
+    (hpre0 : ¬ (o.errors = .raise ∧ I.allFinite (I.check (seed I o t w.user) t) = false))
+    (hb : (I.before o (seed I o t w.user) t).2 = false)
+    (s : Nat) (hs : Reaches I o t (I.before o (seed I o t w.user) t).1 (I.check (seed I o t w.user) t) s)
+    (pre : List (Stmt σ F)) (st : Stmt σ F) (rest : List (Stmt σ F))
+    (hsplit : stmts t s = pre ++ st :: rest)
+    (hpre : (runStmts true pre (traj I o t (I.before o (seed I o t w.user) t).1 (s - 1))).2 = false)
+    (hw : (st.rhs (runStmts true pre (traj I o t (I.before o (seed I o t w.user) t).1 (s - 1))).1).2 = true) :
+    solveT I o n t w =
+      (stamp (withUser w (runStmts true pre (traj I o t (I.before o (seed I o t w.user) t).1 (s - 1))).1) n t .error s,
+       .solutionError true) := by
+  have hstrict : strictOf o = true := by simp [strictOf, he, hc]
+  have hpass : I.eval o (traj I o t (I.before o (seed I o t w.user) t).1 (s - 1)) t s
+      = ((runStmts true pre (traj I o t (I.before o (seed I o t w.user) t).1 (s - 1))).1, true) := by
+    rw [heval, hstrict, hsplit]
+    exact catch_first_no_store pre st rest _ hpre hw
+  have hr : (I.eval o (traj I o t (I.before o (seed I o t w.user) t).1 (s - 1)) t s).2 = true := by rw [hpass]
+  rw [eval_exception I o n t w hacc hpre0 hb s hs hr]
+  simp only [he, if_true]
+  obtain ⟨hp, _, _⟩ := hs
+  obtain ⟨j, rfl⟩ : ∃ j, s = j + 1 := ⟨s - 1, by omega⟩
+  simp only [Nat.add_sub_cancel] at hpass ⊢
+  show (stamp (withUser w (I.eval o (traj I o t _ j) t (j + 1)).1) n t .error _, _) = _
+  rw [hpass]
+
 /-- Non-vacuity: pass with three statements, the second warns. -/
 example : runStmts true
     [⟨fun u => (u + 1, false), fun _ v => v⟩, ⟨fun u => (u * 100, true), fun _ v => v⟩,
@@ -334,5 +375,147 @@ example : solveT exI { maxIter := 5, errors := .skip } 3 1 ⟨0, List.replicate 
 example : solveT exI { maxIter := 5, errors := .replace, failRaise := false } 3 1
       ⟨0, List.replicate 3 .unsolved, [-1, -1, -1]⟩
     = (⟨102, [.unsolved, .failed, .unsolved], [-1, 5, -1]⟩, .ret false) := by decide
+
+/-! ### Converse: the policies are the only source of their statuses -/
+
+/-- **The policies are the only source of their statuses.**  Whatever the model does: a call leaves 'S' only under
+    `errors='skip'`, 'E' only under `errors='raise'`, raises the invalid-`errors` ValueError only when `errors` is not
+    one of the four policies, and 'S'/'E' always carry the number of the pass that met the fault
+    (`1 ≤ iterations[t] ≤ max_iter`). -/
+theorem policy_statuses_sound :
+    (∀ k, (outcomeOf I o n t w.user).2.1 = some (.skipped, k) → o.errors = .skip ∧ 1 ≤ k ∧ k ≤ o.maxIter) ∧
+    (∀ k, (outcomeOf I o n t w.user).2.1 = some (.error, k) → o.errors = .raise ∧ 1 ≤ k ∧ k ≤ o.maxIter) ∧
+    ((outcomeOf I o n t w.user).2.2 = .badErrorsArg → o.errors = .invalid) := by
+  have h := outcome_agrees I o t n w.user
+  generalize outcomeOf I o n t w.user = oc at h ⊢
+  rcases oc with ⟨u', st, r⟩
+  simp only at h
+  refine ⟨?_, ?_, ?_⟩
+  · intro k hk
+    simp only at hk; subst hk
+    cases r with
+    | ret b => cases b <;> simp only [Agree] at h; exact ⟨h.2.2, h.1, h.2.1⟩
+    | _ => simp only [Agree] at h
+  · intro k hk
+    simp only at hk; subst hk
+    cases r with
+    | solutionError c => simp only [Agree] at h; exact ⟨h.2.2, h.1, h.2.1⟩
+    | _ => simp only [Agree] at h
+  · intro hr
+    simp only at hr; subst hr
+    rcases st with _ | ⟨s, k⟩
+    · simpa only [Agree] using h
+    · cases s <;> simp only [Agree] at h
+
+/-! ### Non-vacuity (review): every hypothesis-carrying theorem instantiated at a concrete run with real passes -/
+
+private def exW : World Nat := ⟨0, List.replicate 3 .unsolved, [-1, -1, -1]⟩
+private theorem swapLt {P : Nat → Prop} (n : Nat) (h : ∀ i, i < n → 0 < i → P i) : ∀ i, 0 < i → i < n → P i :=
+  fun i a b => h i b a
+private theorem swapLe {P : Nat → Prop} (n : Nat) (h : ∀ i, i ≤ n → 0 < i → P i) : ∀ i, 0 < i → i ≤ n → P i :=
+  fun i a b => h i b a
+private theorem exAcc (I : Interp Nat Nat) (hl : I.lags = 0) (hd : I.leads = 0) (o : Opts) (h0 : ¬ o.minIter > o.maxIter)
+    (h1 : o.offset = 0) : Accepted I o 3 1 := by
+  unfold Accepted Feasible normT; rw [hl, hd]; exact ⟨h0, by decide, Or.inl h1⟩
+
+
+example : loop exI { maxIter := 5 } 1 5 1 0 0 =
+    loop exI { maxIter := 5 } 1 (5 - 2 + 1) 2 (traj exI { maxIter := 5 } 1 0 (2 - 1)) (hv exI { maxIter := 5 } 1 0 0 (2 - 1)) :=
+  loop_at exI { maxIter := 5 } 1 0 0 2 ⟨by decide, by decide, swapLt 2 (by unfold Continues; decide)⟩
+
+/-- Pre-existing non-finite value (99) under `errors='raise'`. -/
+example : solveT exI {} 3 1 ⟨99, [.unsolved, .solved, .unsolved], [-1, 4, -1]⟩ =
+    (⟨99, [.unsolved, .solved, .unsolved], [-1, 4, -1]⟩, .solutionError false) :=
+  preexisting_nonfinite_unchanged exI {} 3 1 _ (exAcc exI rfl rfl _ (by decide) rfl) rfl rfl (by decide)
+example : solveT exI { offset := 1 } 3 1 ⟨99, [.unsolved, .solved, .unsolved], [-1, 4, -1]⟩ =
+    (withUser ⟨99, [.unsolved, .solved, .unsolved], [-1, 4, -1]⟩ 99, .solutionError false) :=
+  preexisting_nonfinite_rejected exI { offset := 1 } 3 1 _ (by unfold Accepted Feasible; decide) rfl (by decide)
+
+/-- `policy_raise`, `policy_skip`, `policy_invalid`: the fault appears at pass `s = 2` (not the first pass). -/
+example : solveT exI { maxIter := 5, errors := .raise } 3 1 exW =
+    (stamp (withUser exW 99) 3 1 .error ((2 : Nat) : Int), .solutionError false) :=
+  policy_raise exI { maxIter := 5, errors := .raise } 3 1 exW (exAcc exI rfl rfl _ (by decide) rfl) rfl rfl (by decide) 2
+    ⟨by decide, by decide, swapLt 2 (by unfold Continues; decide)⟩ rfl (by decide) (by decide)
+example : solveT exI { maxIter := 5, errors := .skip } 3 1 exW =
+    (stamp (withUser exW 99) 3 1 .skipped ((2 : Nat) : Int), .ret false) :=
+  policy_skip exI { maxIter := 5, errors := .skip } 3 1 exW (exAcc exI rfl rfl _ (by decide) rfl) rfl rfl 2
+    ⟨by decide, by decide, swapLt 2 (by unfold Continues; decide)⟩ rfl (by decide) (by decide)
+example : solveT exI { maxIter := 5, errors := .invalid } 3 1 exW = (withUser exW 99, .badErrorsArg) :=
+  policy_invalid exI { maxIter := 5, errors := .invalid } 3 1 exW (exAcc exI rfl rfl _ (by decide) rfl) rfl rfl 2
+    ⟨by decide, by decide, swapLt 2 (by unfold Continues; decide)⟩ rfl (by decide) (by decide)
+
+/-- `solve_moves_on` after the skipped period 1: the loop continues with period 2. -/
+example : solveList exI { maxIter := 5, errors := .skip } 3 (1 :: [2]) exW [] [] =
+    solveList exI { maxIter := 5, errors := .skip } 3 [2] ⟨99, [.unsolved, .skipped, .unsolved], [-1, 2, -1]⟩ [1] [false] :=
+  solve_moves_on exI _ 3 exW 1 [2] [] [] _ false (by decide)
+
+/-- A model that yields the non-finite 99 at pass 2 only and 5 otherwise: under `ignore` pass 3 starts from the
+    non-finite vector (never judged), pass 4 is judged and accepted. -/
+private def exJ : Interp Nat Nat :=
+  { exI with eval := fun _ _ _ k => (if k = 2 then 99 else 5, false) }
+
+example : solveT exJ { maxIter := 6, errors := .ignore } 3 1 exW =
+    (stamp (withUser exW 5) 3 1 .solved ((4 : Nat) : Int), .ret true) :=
+  policy_continue_solved exJ { maxIter := 6, errors := .ignore } 3 1 exW (exAcc exJ rfl rfl _ (by decide) rfl)
+    (by decide) rfl 4 ⟨by decide, by decide, swapLt 4 (by unfold Continues; decide)⟩ rfl (by decide) (by decide)
+    (by decide) (by decide) rfl
+
+/-- `policy_continue_failed`: `replace`, all five passes continue (pass 2 is the fault, replaced by 0). -/
+example : solveT exI { maxIter := 5, errors := .replace, failRaise := false } 3 1 exW =
+    (stamp (withUser exW 102) 3 1 .failed ((5 : Nat) : Int), .ret false) :=
+  policy_continue_failed exI { maxIter := 5, errors := .replace, failRaise := false } 3 1 exW
+    (exAcc exI rfl rfl _ (by decide) rfl) (by decide) rfl (swapLe 5 (by unfold Continues; decide))
+
+/-- `policy_continue_failed_at_max`: `ignore`, `max_iter = 2`, the fault falls on the last permitted pass. -/
+example : solveT exI { maxIter := 2, errors := .ignore } 3 1 exW =
+    (stamp (withUser exW 99) 3 1 .failed ((2 : Nat) : Int), .nonConvergence) :=
+  policy_continue_failed_at_max exI { maxIter := 2, errors := .ignore } 3 1 exW (exAcc exI rfl rfl _ (by decide) rfl)
+    (Or.inl rfl) rfl 2 ⟨by decide, by decide, swapLt 2 (by unfold Continues; decide)⟩ rfl rfl (by decide) (by decide)
+
+/-- `never_judged_from_nonfinite`: pass 3 entered with the held vector 99. -/
+example : loop exI { errors := .ignore } 1 (2 + 1) 3 99 99 =
+    loop exI { errors := .ignore } 1 2 (3 + 1) 100 100 :=
+  never_judged_from_nonfinite exI { errors := .ignore } 1 2 3 99 99 rfl (by decide)
+
+/-- Hooks / passes that raise: pre-hook (`rb`), pass number `re`, post-hook (`ra`); a pass moves one step towards 2. -/
+private def exK (rb ra : Bool) (re : Nat) : Interp Nat Nat :=
+  { exI with allFinite := fun _ => true, before := fun _ u _ => (u, rb),
+             eval := fun _ u _ k => (min (u + 1) 2, k == re), after := fun _ u _ _ => (u, ra) }
+
+example : solveT (exK false false 2) { maxIter := 5 } 3 1 exW =
+    (stamp (withUser exW 2) 3 1 .error ((2 : Nat) : Int), .solutionError true) :=
+  eval_exception (exK false false 2) { maxIter := 5 } 3 1 exW (exAcc _ rfl rfl _ (by decide) rfl) (by decide) rfl 2
+    ⟨by decide, by decide, swapLt 2 (by unfold Continues; decide)⟩ rfl
+example : solveT (exK false false 2) { maxIter := 5, errors := .skip } 3 1 exW = (withUser exW 2, .solutionError true) :=
+  eval_exception (exK false false 2) { maxIter := 5, errors := .skip } 3 1 exW (exAcc _ rfl rfl _ (by decide) rfl)
+    (by decide) rfl 2 ⟨by decide, by decide, swapLt 2 (by unfold Continues; decide)⟩ rfl
+example : solveT (exK true false 0) { maxIter := 5 } 3 1 exW = (withUser exW 0, .solutionError true) :=
+  before_exception (exK true false 0) { maxIter := 5 } 3 1 exW (exAcc _ rfl rfl _ (by decide) rfl) (by decide) rfl
+example : solveT (exK false true 0) { maxIter := 5 } 3 1 exW = (withUser exW 2, .solutionError true) :=
+  after_exception (exK false true 0) { maxIter := 5 } 3 1 exW (exAcc _ rfl rfl _ (by decide) rfl) (by decide) rfl 3
+    ⟨by decide, by decide, swapLt 3 (by unfold Continues; decide)⟩ rfl (by decide) (by decide) (by decide) (by decide) rfl
+
+/-- `catch_first_no_store` with a non-empty prefix: the first statement stores 1, the second warns. -/
+example : runStmts true ([⟨fun u => (u + 1, false), fun _ v => v⟩] ++
+      (⟨fun u => (u * 100, true), fun _ v => v⟩ :: [⟨fun u => (u + 7, false), fun _ v => v⟩])) (0 : Nat) =
+    ((runStmts true [⟨fun u => (u + 1, false), fun _ v => v⟩] (0 : Nat)).1, true) :=
+  catch_first_no_store [⟨fun u => (u + 1, false), fun _ v => v⟩] ⟨fun u => (u * 100, true), fun _ v => v⟩
+    [⟨fun u => (u + 7, false), fun _ v => v⟩] (0 : Nat) (by decide) (by decide)
+
+/-- `warning_statement_not_stored`: a model whose pass is three statements — store `u + 1`; store `u * 2` with a warning;
+    store 0 — solved with the default error handling from 1: the first statement's 2 is kept, the warning statement's 4
+    is not stored, the third never runs; 'E' at pass 1. -/
+private def exStm3 : List (Stmt Nat Nat) :=
+  [⟨fun u => (u + 1, false), fun _ v => v⟩, ⟨fun u => (u * 2, true), fun _ v => v⟩, ⟨fun _ => (0, false), fun _ v => v⟩]
+private def exIS : Interp Nat Nat :=
+  { exI with allFinite := fun _ => true, before := fun _ u _ => (u, false),
+             eval := fun o u _ _ => runStmts (strictOf o) exStm3 u, after := fun _ u _ _ => (u, false) }
+example : solveT exIS { maxIter := 5 } 3 1 ⟨1, List.replicate 3 .unsolved, List.replicate 3 (-1)⟩ =
+    (stamp (withUser ⟨1, List.replicate 3 .unsolved, List.replicate 3 (-1)⟩ 2) 3 1 .error ((1 : Nat) : Int),
+     .solutionError true) :=
+  warning_statement_not_stored exIS { maxIter := 5 } 3 1 _ (fun _ _ => exStm3) (fun _ _ _ _ => rfl) rfl rfl
+    (exAcc _ rfl rfl _ (by decide) rfl) (by decide) rfl 1 ⟨by decide, by decide, swapLt 1 (by unfold Continues; decide)⟩
+    [⟨fun u => (u + 1, false), fun _ v => v⟩] ⟨fun u => (u * 2, true), fun _ v => v⟩ [⟨fun _ => (0, false), fun _ v => v⟩]
+    rfl rfl rfl
 
 end Fsic.C06
